@@ -36,6 +36,10 @@ func SplitRawStatements(filepath, s string) ([]*RawStatement, error) {
 				return nil, err
 			}
 			firstPos = lex.Token.Pos
+			// Comments between ";" and the next token belong to the next statement.
+			if len(lex.Token.Comments) > 0 {
+				firstPos = lex.Token.Comments[0].Pos
+			}
 			continue
 		}
 
